@@ -163,7 +163,10 @@ def _parse_csv_with_units(
     _get_column_names_and_units(...) and writer helpers.
     """
     # Read as-is (no header row); keep object dtype so mixed cells don't get mangled.
-    df_full = pd.read_csv(csv_file, header=None, encoding=encoding, dtype=object)
+    df_full = pd.read_csv(
+        csv_file, header=None, encoding=encoding, dtype=object,
+        keep_default_na=False, na_values=[""],  # only an empty cell is missing: "NA", "None", "null" are names
+    )
 
     # Build column names & units using your existing logic keyed by 'kind'
     col_names, col_units = _get_column_names_and_units(
